@@ -569,6 +569,12 @@ func runC14(t *testing.T, rng *rand.Rand, rec *sim.Rec, tier string, caseNo int)
 			return
 		}
 		relay2 := conn2.LocalAddr().(*net.UDPAddr)
+		if rng.Intn(2) == 0 {
+			// the application closes the first socket once more (a deferred Close after an explicit
+			// one): an error for that socket at most, nothing that concerns the new one
+			_ = conn.Close()
+			rec.FP("second-allocation/first-socket-closed-again")
+		}
 		fip := net.IPv4(10, 2, 0, 77).To4()
 		if relay2.IP.To4() == nil {
 			fip = net.ParseIP("fd00:2::77")
